@@ -18,6 +18,7 @@ fn main() {
     let code = match args[1].as_str() {
         "C01" => props::c01::run(&cfg),
         "C02" => props::c02::run(&cfg),
+        "C03" => props::c03::run(&cfg),
         "C04" => props::c04::run(&cfg),
         "C05" => props::c05::run(&cfg),
         "C06" => props::c06::run(&cfg),
